@@ -507,9 +507,10 @@ func main() {
 	r.Require("kind:unary", "kind:unary-void", "kind:producer", "kind:producer-header", "kind:exchange", "kind:exchange-header", "kind:dynamic-header",
 		"param:static", "param:declarer", "orders-differ", "child:gomaxprocs=1", "child:gomaxprocs=2", "child:gomaxprocs=16",
 		"http-describe", "service-name:set", "service-name:default", "server-id:set", "protocol-version:set", "conformance-service",
-		"names:non-ascii", "names:case-mix")
+		"names:non-ascii", "names:case-mix",
+		"same-surface-different-identity:http-after-http", "same-surface-different-identity:renamed-server")
 
-	nSurf := r.N(2000, 30000)
+	nSurf := r.N(1500, 24000)
 	const chunk = 400
 	procs := []int{1, 2, 16}
 	done := 0
@@ -656,6 +657,11 @@ func checkChunk(r *mon.Run, rng *rand.Rand, surfaces []surface, procs []int, bas
 			}
 		}
 
+		// --- same surface, different identity, one process ---
+		if !sf.Conformance && (base0+si)%3 == 0 {
+			identityArm(r, rng, sf, base.Meta["vgi_rpc.protocol_hash"])
+		}
+
 		// --- child processes ---
 		for pi, np := range procs {
 			o := childOuts[pi][si]
@@ -713,6 +719,122 @@ func checkChunk(r *mon.Run, rng *rand.Rand, surfaces []surface, procs []int, bas
 				names = append(names, rw.Name)
 			}
 			r.Sample(map[string]any{"names": names, "hash": base.Meta["vgi_rpc.protocol_hash"], "service": sf.ServiceName})
+		}
+	}
+}
+
+// identityArm registers the SAME surface on several servers of this process
+// that differ only in what the hash deliberately leaves out (server id,
+// declared protocol version, registration order) and describes them over
+// HTTP and pipe in interleaved order. Each server's HTTP response must be its
+// own pipe response and carry its own identity.
+func identityArm(r *mon.Run, rng *rand.Rand, sf *surface, hash string) {
+	type ident struct {
+		sf    surface
+		srv   *vgirpc.Server
+		http  *vgirpc.HttpServer
+		label string
+		order []int
+	}
+	mk := func(label, id, pv string) *ident {
+		v := *sf
+		v.ServerID, v.ProtocolVersion = id, pv
+		order := rng.Perm(len(sf.Methods))
+		srv, err := build(&v, order)
+		if err != nil {
+			r.Fatal("build: %v", err)
+		}
+		return &ident{sf: v, srv: srv, http: vgirpc.NewHttpServer(srv), label: label, order: order}
+	}
+	otherPV := "2.1.0"
+	if sf.ProtocolVersion != "" {
+		otherPV = ""
+	}
+	a := mk("A(own identity)", sf.ServerID, sf.ProtocolVersion)
+	b := mk("B(other server id)", sf.ServerID+"-b", sf.ProtocolVersion)
+	c := mk("C(other protocol version)", sf.ServerID, otherPV)
+	d := mk("D(both differ)", "", "7.7.7")
+	if sf.ServerID == "" {
+		d = mk("D(both differ)", "srv-d", "7.7.7")
+	}
+	type step struct {
+		who  *ident
+		http bool
+	}
+	var plan []step
+	if rng.IntN(2) == 0 {
+		plan = []step{{a, true}, {b, true}, {b, false}, {a, false}, {c, true}, {d, true}, {d, false}, {c, false}}
+	} else {
+		plan = []step{{d, false}, {c, false}, {c, true}, {d, true}, {b, true}, {a, true}, {a, false}, {b, false}}
+	}
+	got := map[*ident]map[bool]*described{}
+	httpSeen := 0
+	for _, st := range plan {
+		var body []byte
+		if st.http {
+			rec := wd.HTTPDo(st.who.http, http.MethodPost, "/__describe__", wd.EmptyRequest("__describe__"),
+				[][2]string{{"Content-Type", wd.ArrowCT}}, false)
+			body = rec.Body.Bytes()
+			if httpSeen > 0 {
+				r.Class("same-surface-different-identity:http-after-http")
+			}
+			httpSeen++
+		} else {
+			body = pipeDescribe(st.who.srv)
+		}
+		dd, err := decodeDescribe(body)
+		if err != nil {
+			r.Violation("describe:identity:undecodable", "describe of a server sharing its surface with another is not decodable",
+				witness{Surface: st.who.sf, Order: st.who.order, Detail: map[string]any{"server": st.who.label, "http": st.http, "error": err.Error()}})
+			return
+		}
+		if got[st.who] == nil {
+			got[st.who] = map[bool]*described{}
+		}
+		got[st.who][st.http] = dd
+	}
+	// after a SetServerID on a server that has already been described over HTTP
+	b.srv.SetServerID("renamed")
+	b.sf.ServerID = "renamed"
+	b.label = "B(renamed after first describe)"
+	{
+		rec := wd.HTTPDo(b.http, http.MethodPost, "/__describe__", wd.EmptyRequest("__describe__"), [][2]string{{"Content-Type", wd.ArrowCT}}, false)
+		hd, err1 := decodeDescribe(rec.Body.Bytes())
+		pd, err2 := decodeDescribe(pipeDescribe(b.srv))
+		if err1 == nil && err2 == nil {
+			got[b] = map[bool]*described{true: hd, false: pd}
+			r.Class("same-surface-different-identity:renamed-server")
+		}
+	}
+	for _, who := range []*ident{a, b, c, d} {
+		hd, pd := got[who][true], got[who][false]
+		if hd == nil || pd == nil {
+			continue
+		}
+		det := map[string]any{"server": who.label, "http_meta": sortedMeta(hd.Meta), "pipe_meta": sortedMeta(pd.Meta),
+			"configured_server_id": who.sf.ServerID, "configured_protocol_version": who.sf.ProtocolVersion}
+		wit := witness{Surface: who.sf, Order: who.order, Detail: det}
+		if hd.Canon != pd.Canon {
+			r.Violation("describe:identity:pipe-http-rows-differ", "with several servers sharing one surface in the process, a server's HTTP describe rows differ from its pipe describe", wit)
+		}
+		if gen.JSON(sortedMeta(hd.Meta)) != gen.JSON(sortedMeta(pd.Meta)) {
+			r.Violation("describe:identity:pipe-http-metadata-differ", "with several servers sharing one surface in the process, a server's HTTP describe metadata differs from its own pipe describe", wit)
+		}
+		for _, v := range []struct {
+			name string
+			d    *described
+		}{{"http", hd}, {"pipe", pd}} {
+			id, hasID := v.d.Meta["vgi_rpc.server_id"]
+			pv, hasPV := v.d.Meta["vgi_rpc.protocol_version"]
+			if id != who.sf.ServerID || hasID != (who.sf.ServerID != "") {
+				r.Violation("describe:identity:foreign-server-id:"+v.name, "describe carries a server id other than the answering server's own", wit)
+			}
+			if pv != who.sf.ProtocolVersion || hasPV != (who.sf.ProtocolVersion != "") {
+				r.Violation("describe:identity:foreign-protocol-version:"+v.name, "describe carries a protocol version other than the answering server's own", wit)
+			}
+			if v.d.Meta["vgi_rpc.protocol_hash"] != hash {
+				r.Violation("describe:identity:hash-depends-on-identity", "protocol hash changes with server id / protocol version / registration order", wit)
+			}
 		}
 	}
 }
